@@ -224,6 +224,13 @@ func runCase(cs *Case, root string) (res CaseResult) {
 				all = append(all, mls[i])
 			}
 			top = px.NewDependencyLoader(all)
+		case "chain":
+			var p px.Loader = parent
+			for i := len(cs.Mods) - 1; i >= 0; i-- {
+				mls[i] = px.NewFileBasedLoader(p, filepath.Join(root, cs.Mods[i].Dir), cs.Mods[i].Name, px.PuppetDataTypePath)
+				p = mls[i]
+			}
+			top = mls[0]
 		case "runtime":
 			// the loaders are built by (*rt).EnvironmentLoader from the module_path setting
 			top = pcore.EnvironmentLoader()
